@@ -11,6 +11,7 @@ go build -o /tmp/pv_regen .
 /tmp/pv_regen -dump fieldwrites   > pinned_field_writes.json
 /tmp/pv_regen -dump leafterms     > pinned_leaf_terms.json
 /tmp/pv_regen -dump codeccalls    > pinned_codec_calls.json
+/tmp/pv_regen -dump switchatoms   > pinned_switch_atoms.json
 go build -o /verif/bin/pv .
 rm -f /tmp/pv_regen
 ls -la pinned_*.json
